@@ -125,6 +125,8 @@ def main():
         json.dump(m, open(mp, 'w'), indent=1)
         c = m['confirmed']
         first = (m.get('earlier_runs') or [m['checks_run']])[0]
+        if m.get('status', '').startswith('moot'):
+            needs += ' — ' + m['status'].split(':')[0]
         rows.append((k, what, needs, c['demo_on_clean_tree_exit'],
                      c['demo_with_patch_exit'],
                      c['pinned_suite_with_patch'].split(' in ')[0],
